@@ -331,7 +331,10 @@ def opnames():
 
 
 def norm_line(l):
-    m = re.match(r"^<(\w+) instance @ 0x[0-9a-f]+>$", l)
+    m = re.match(r"^<(\w+) instance @ (?:0x[0-9a-f]+|ADDR)>$", l)
+    if m:
+        return m.group(1)
+    m = re.match(r"^<fn (\w+) @ (?:0x[0-9a-f]+|ADDR)>$", l)
     return m.group(1) if m else l
 
 
@@ -344,7 +347,7 @@ def impl_result(rec):
         m0 = rec.messages[0] if rec.messages else ""
         m = re.match(r"^Unhandled exception: (.*)$", m0)
         if m:
-            return out + "/U:" + m.group(1)
+            return out + "/U:" + norm_line(m.group(1))
         m = re.match(r"^Unhandled (\w+): ", m0)
         if m:
             return out + "/U:" + m.group(1)
@@ -423,8 +426,9 @@ def nontrivial_kinds(itrace):
     return kinds
 
 
-def evaluate(ctx, progs, tag, want_trace=True):
-    """-> list of dicts with wf, cls, spec, m, src, impl, rec, mtrace"""
+def evaluate(ctx, progs, tag, want_trace=True, ndebug=0):
+    """-> list of dicts with wf, cls, spec, m, src, impl, rec, mtrace; the release binary runs every program,
+    the debug binary (overflow checks, debug assertions) the first `ndebug` as well"""
     ws = [wire(p) for p in progs]
     terms = []
     for w in ws:
@@ -433,10 +437,12 @@ def evaluate(ctx, progs, tag, want_trace=True):
         if want_trace:
             terms.append('c08_trace 4000 "%s"' % w)
     per = 3 if want_trace else 2
-    vals = yvlib.coq_eval(["YV:TryRun"], terms, shard_size=per * 60, tag="C08" + tag)
-    binary = ctx.harness("debug")
+    shard = per * max(8, (len(ws) + 31) // 32)
+    vals = yvlib.coq_eval(["YV:TryRun"], terms, shard_size=shard, tag="C08" + tag)
     srcs = [vals[per * i + 1] for i in range(len(ws))]
-    recs = yvlib.run_harness(binary, ["trace - 6000 " + hx(s or "")  for s in srcs], case_timeout_ms=10000)
+    lines = ["trace - 6000 " + hx(s or "") for s in srcs]
+    recs = yvlib.run_harness(ctx.harness("release"), lines, case_timeout_ms=10000)
+    drecs = yvlib.run_harness(ctx.harness("debug"), lines[:ndebug], case_timeout_ms=20000) if ndebug else []
     res = []
     for i, w in enumerate(ws):
         case = vals[per * i]
@@ -446,6 +452,8 @@ def evaluate(ctx, progs, tag, want_trace=True):
         wf, cls, spec, m = case.split("#")
         res.append({"wire": w, "prog": progs[i], "wf": wf == "T", "cls": None if cls == "-" else cls, "spec": spec,
                     "m": m, "src": srcs[i], "rec": recs[i], "impl": impl_result(recs[i]),
+                    "impl_debug": impl_result(drecs[i]) if i < len(drecs) else None,
+                    "rec_debug": drecs[i] if i < len(drecs) else None,
                     "mtrace": vals[per * i + 2] if want_trace else None})
     return res
 
@@ -478,6 +486,14 @@ def judge(ctx, r, stats):
         stats["m_undefined"] += 1
     elif impl != m:
         ctx.corr_broken.append("impl != M (Handlers.v) result on %s : impl %s, M %s" % (r["src"], impl, m))
+    if r.get("impl_debug") is not None and not m_undefined:
+        stats["debug_runs"] = stats.get("debug_runs", 0) + 1
+        if r["impl_debug"] != impl:
+            ctx.corr_broken.append("debug build != release build on %s : %s vs %s" % (r["src"], r["impl_debug"], impl))
+        elif r["mtrace"] is not None:
+            d2, _, _ = compare_trace(r["mtrace"], impl_trace(r["rec_debug"]))
+            if d2:
+                ctx.corr_broken.append("impl (debug build) != M (Handlers.v) on %s : %s" % (r["src"], d2))
     # (b) impl == S
     if impl != spec:
         if cls:
@@ -556,16 +572,72 @@ def shrink(ctx, r, budget=30):
 
 # ------------------------------------------------------------------------------------------------
 
-def load_witnesses(ctx):
-    """the witness programs of the `_refuted` lemmas (HandlersProofs.v), replayed on the real binary"""
-    names = ["wit_early_exit_break", "wit_early_exit_return2", "wit_early_exit_catch", "wit_return_no_finally",
-             "wit_finally_local", "wit_he_global_nested", "wit_he_global_callee", "wit_abrupt_finally",
-             "wit_pending_return"]
-    try:
-        vals = yvlib.coq_eval(["YV:TryRun", "YV:HandlersProofs"], names, tag="C08wit")
-    except Exception as e:  # noqa
-        vals = [None] * len(names)
-    return [(n, v) for n, v in zip(names, vals)]
+WITNESSES = [("wit_early_exit_break", "early_exit_skips_finally"), ("wit_early_exit_return2", "early_exit_skips_finally"),
+             ("wit_early_exit_catch", "early_exit_skips_finally"), ("wit_return_no_finally", "return_in_try_catch_no_finally"),
+             ("wit_finally_local", "finally_local"), ("wit_he_global_nested", "handling_exception_global"),
+             ("wit_he_global_callee", "handling_exception_global"), ("wit_abrupt_finally", "abrupt_exit_from_finally"),
+             ("wit_pending_return", "pending_return_survives_throw"),
+             ("wit_catch_pops_outer", None), ("wit_break_in_try", None)]
+
+
+def replay_witnesses(ctx, stats):
+    """the witness programs of the `_refuted` lemmas (HandlersProofs.v) on the real binary: the implementation must
+    do what M does (so the lemma is about this code), and differ from S (else the class is repaired)"""
+    vals = yvlib.coq_eval(["YV:TryRun", "YV:HandlersProofs"], [n for n, _ in WITNESSES], tag="C08wit")
+    if any(v is None for v in vals):
+        ctx.broken.append("witness programs of HandlersProofs.v could not be evaluated")
+        return
+    rs = evaluate(ctx, [unwire(v) for v in vals], "witrun", ndebug=len(vals))
+    for (name, cls), r in zip(WITNESSES, rs):
+        judge(ctx, r, stats)
+        if r["cls"] != cls:
+            ctx.broken.append("witness %s is classified %s, expected %s" % (name, r["cls"], cls))
+        if cls is not None and r["impl"] == r["spec"]:
+            ctx.notes.append("witness %s of the open class %s now behaves as the Spec demands: the class looks repaired "
+                             "(move it to `fixed`, drop the exclusion)" % (name, cls))
+        if cls is None and r["impl"] != r["spec"]:
+            stats["violations"].append(r)
+    stats["witnesses_replayed"] = len(rs)
+
+
+def refspec_compare(ctx, results, stats, tag):
+    """the FULL reference interpreter (SpecScripts.run_case = SpecRun.run_program (ParseRun.parse_source src), other
+    owners' files) on the rendered sources against TrySpec.eval_spec; skipped when those files are not built"""
+    import binascii
+    if not all(os.path.exists(os.path.join(yvlib.COQ, "theories", f)) for f in ("SpecRun.vo", "ParseRun.vo", "SpecScripts.vo")):
+        ctx.notes.append("SpecRun/ParseRun/SpecScripts not built: comparison with the full reference interpreter skipped")
+        return
+    rs = [r for r in results if r["wf"]]
+    terms = ['run_case 300 [] "%s"' % binascii.hexlify(r["src"].encode()).decode() for r in rs]
+    vals = yvlib.coq_eval(["YV:SpecScripts"], terms, shard_size=max(4, (len(terms) + 31) // 32), tag="C08ref" + tag,
+                          preamble="Open Scope string_scope.\n")
+    stats.setdefault("refspec_compared", 0)
+    stats.setdefault("refspec_disagree", 0)
+    stats.setdefault("refspec_failed", 0)
+    for r, v in zip(rs, vals):
+        mm = re.match(r"^out=\[([0-9a-f,]*)\];res=(ok|err|fuel)(?::(\w+):\[([0-9a-f,]*)\])?", v or "")
+        if not mm or mm.group(2) == "fuel":
+            stats["refspec_failed"] += 1
+            continue
+        out = [binascii.unhexlify(x).decode("utf-8", "replace") for x in mm.group(1).split(",") if x] if mm.group(1) else []
+        ref = ",".join(norm_line(l) for l in out)
+        if mm.group(2) == "ok":
+            ref += "/D"
+        else:
+            msgs = [binascii.unhexlify(x).decode("utf-8", "replace") for x in (mm.group(4) or "").split(",") if x]
+            m0 = msgs[0] if msgs else ""
+            m1 = re.match(r"^Unhandled exception: (.*)$", m0)
+            m2 = re.match(r"^Unhandled (\w+): ", m0)
+            ref += "/U:" + (norm_line(m1.group(1)) if m1 else m2.group(1) if m2 else "?" + m0)
+        stats["refspec_compared"] += 1
+        if ref != r["spec"]:
+            stats["refspec_disagree"] += 1
+            if r["impl"] == ref:
+                ctx.broken.append("TrySpec.eval_spec differs from the full reference interpreter AND from the implementation: "
+                                  "%s | eval_spec %s | SpecRun %s" % (r["src"][:300], r["spec"], ref))
+            elif len(ctx.notes) < 6:
+                ctx.notes.append("SpecRun.run_program differs from TrySpec.eval_spec on: %s | eval_spec %s | SpecRun %s | impl %s"
+                                 % (r["src"][:300], r["spec"], ref, r["impl"]))
 
 
 def run(ctx):
@@ -575,13 +647,14 @@ def run(ctx):
     if ctx.replay_only:
         w = ctx.replay_only.get("wire")
         if w:
-            progs = [unwire(w)]
-            for r in evaluate(ctx, progs, "replay"):
+            for r in evaluate(ctx, [unwire(w)], "replay", ndebug=1):
                 judge(ctx, r, stats)
             finish(ctx, stats, [])
         return
+    replay_witnesses(ctx, stats)
     progs = systematic()
-    n_safe, n_wild = (700, 300) if quick else (9000, 4000)
+    nsys = len(progs)
+    n_safe, n_wild = (330, 150) if quick else (7000, 3000)
     g1 = Gen(rng, "safe")
     progs += [g1.program() for _ in range(n_safe)]
     g2 = Gen(rng, "wild")
@@ -593,9 +666,10 @@ def run(ctx):
         if w not in seen:
             seen.add(w)
             uniq.append(p)
-    results = evaluate(ctx, uniq, "gen")
+    results = evaluate(ctx, uniq, "gen", ndebug=min(len(uniq), nsys if quick else nsys + 600))
     for r in results:
         judge(ctx, r, stats)
+    refspec_compare(ctx, results if not quick else results[:nsys + 120], stats, "gen")
     finish(ctx, stats, results)
 
 
